@@ -54,6 +54,50 @@ pub struct Session {
 pub struct Ctx {
     pub exe: String,
     pub shim: String,
+    /// private directories handed to child processes as TMPDIR / HOME / cwd live under here
+    pub tmp_root: String,
+    pub counter: std::sync::atomic::AtomicU64,
+}
+
+/// What the environment shim saw the child ask for after start-up.
+#[derive(Clone, Debug, Default)]
+pub struct Seams {
+    pub getrandom: u64,
+    pub clock: u64,
+    pub getpid: u64,
+    pub getenv: u64,
+    pub names: Vec<String>,
+}
+
+pub struct ChildOut {
+    pub obs: Vec<Obs>,
+    pub raw: String,
+    pub seams: Seams,
+}
+
+/// A private directory that is all the *durable state* a simulated process can have: its TMPDIR,
+/// HOME, XDG_CACHE_HOME and working directory. Segments of one session share it (a restart keeps
+/// what is on disk and nothing else); every reference process gets a fresh, empty one.
+pub struct Durable {
+    pub path: std::path::PathBuf,
+}
+
+impl Durable {
+    pub fn new(ctx: &Ctx, label: &str) -> Durable {
+        let n = ctx.counter.fetch_add(1, std::sync::atomic::Ordering::SeqCst);
+        // fixed-width name: the length of TMPDIR is part of the environment block, hence of the layout
+        let label3: String = label.chars().chain("___".chars()).take(3).collect();
+        let path = std::path::Path::new(&ctx.tmp_root).join(format!("{:08}-{}-{:010}", std::process::id(), label3, n));
+        let _ = std::fs::remove_dir_all(&path);
+        std::fs::create_dir_all(&path).expect("create durable dir");
+        Durable { path }
+    }
+}
+
+impl Drop for Durable {
+    fn drop(&mut self) {
+        let _ = std::fs::remove_dir_all(&self.path);
+    }
 }
 
 #[derive(Clone, Debug, PartialEq, Eq)]
@@ -63,7 +107,7 @@ pub struct RefObs {
     pub len: usize,
 }
 
-pub fn run_child(ctx: &Ctx, env: &Env, sched: &Schedule) -> Result<(Vec<Obs>, String), String> {
+pub fn run_child(ctx: &Ctx, env: &Env, sched: &Schedule, durable: &Durable) -> Result<ChildOut, String> {
     let mut cmd = if env.aslr_off {
         let mut c = Command::new("setarch");
         c.arg(std::env::consts::ARCH).arg("-R").arg(&ctx.exe);
@@ -75,6 +119,7 @@ pub fn run_child(ctx: &Ctx, env: &Env, sched: &Schedule) -> Result<(Vec<Obs>, St
     cmd.env_clear();
     cmd.env("PATH", "/usr/bin:/bin");
     cmd.env("LD_PRELOAD", &ctx.shim);
+    cmd.env("VERIF_SHIM_REPORT", "1");
     cmd.env("VERIF_ENTROPY_SEED", env.entropy_seed.to_string());
     if let Some(c) = env.clock_base {
         cmd.env("VERIF_CLOCK_BASE", c.to_string());
@@ -82,12 +127,22 @@ pub fn run_child(ctx: &Ctx, env: &Env, sched: &Schedule) -> Result<(Vec<Obs>, St
     if let Some(p) = env.fake_pid {
         cmd.env("VERIF_FAKE_PID", p.to_string());
     }
+    // the only durable state: one private directory (same length of path for every process of a run)
+    cmd.env("TMPDIR", &durable.path);
+    cmd.env("HOME", &durable.path);
+    cmd.env("XDG_CACHE_HOME", &durable.path);
     for (k, v) in &env.junk {
         cmd.env(k, v);
     }
-    if let Some(d) = &env.cwd {
-        cmd.current_dir(d);
-    }
+    let cwd = match &env.cwd {
+        Some(sub) => {
+            let d = durable.path.join(sub);
+            std::fs::create_dir_all(&d).map_err(|e| format!("cwd: {e}"))?;
+            d
+        }
+        None => durable.path.clone(),
+    };
+    cmd.current_dir(cwd);
     cmd.stdin(Stdio::piped()).stdout(Stdio::piped()).stderr(Stdio::piped());
     let mut child = cmd.spawn().map_err(|e| format!("spawn: {e}"))?;
     let input = serde_json::to_vec(sched).unwrap();
@@ -97,12 +152,9 @@ pub fn run_child(ctx: &Ctx, env: &Env, sched: &Schedule) -> Result<(Vec<Obs>, St
         stdin.write_all(&input).map_err(|e| format!("write schedule: {e}"))?;
     }
     let out = child.wait_with_output().map_err(|e| format!("wait: {e}"))?;
+    let stderr = String::from_utf8_lossy(&out.stderr).to_string();
     if !out.status.success() {
-        return Err(format!(
-            "session child failed: {:?}\n{}",
-            out.status,
-            String::from_utf8_lossy(&out.stderr)
-        ));
+        return Err(format!("session child failed: {:?}\n{}", out.status, stderr));
     }
     let raw = String::from_utf8_lossy(&out.stdout).to_string();
     let mut obs = Vec::new();
@@ -112,7 +164,27 @@ pub fn run_child(ctx: &Ctx, env: &Env, sched: &Schedule) -> Result<(Vec<Obs>, St
     if obs.len() != sched.requests.len() {
         return Err(format!("child answered {} of {} requests", obs.len(), sched.requests.len()));
     }
-    Ok((obs, raw))
+    let mut seams = Seams::default();
+    if !stderr.lines().any(|l| l.starts_with("VERIF_SHIM ")) {
+        return Err("the environment shim did not report: LD_PRELOAD interposition is not in effect".into());
+    }
+    for l in stderr.lines() {
+        if let Some(rest) = l.strip_prefix("VERIF_SHIM ") {
+            for part in rest.split_whitespace() {
+                if let Some((k, v)) = part.split_once('=') {
+                    match k {
+                        "getrandom" => seams.getrandom = v.parse().unwrap_or(0),
+                        "clock" => seams.clock = v.parse().unwrap_or(0),
+                        "getpid" => seams.getpid = v.parse().unwrap_or(0),
+                        "getenv" => seams.getenv = v.parse().unwrap_or(0),
+                        "names" => seams.names = v.split(',').filter(|x| !x.is_empty()).map(|x| x.to_string()).collect(),
+                        _ => {}
+                    }
+                }
+            }
+        }
+    }
+    Ok(ChildOut { obs, raw, seams })
 }
 
 /// Reference model: the observation made by a pristine one-request, one-thread process.
@@ -130,8 +202,9 @@ pub fn reference(ctx: &Ctx, key: &Key, dump: bool) -> Result<(RefObs, Option<Str
         worker_stack_kb: 2048,
         dump_text: dump,
     };
-    let (obs, _) = run_child(ctx, &Env::pristine(), &sched)?;
-    let o = &obs[0];
+    let dur = Durable::new(ctx, "ref");
+    let out = run_child(ctx, &Env::pristine(), &sched, &dur)?;
+    let o = &out.obs[0];
     Ok((
         RefObs {
             class: o.class.clone(),
@@ -177,10 +250,25 @@ pub struct Corpus {
     pub base: Vec<Key>,
     pub faults: Vec<Key>,
     pub derives: Vec<&'static str>,
+    /// environment variables the code under simulation was seen asking for (discovery pre-pass)
+    pub env_names: Vec<String>,
 }
 
-fn junk_env(r: &mut Rng) -> Vec<(String, String)> {
+fn junk_env(r: &mut Rng, discovered: &[String]) -> Vec<(String, String)> {
     let mut v = Vec::new();
+    // variables the expanders were seen reading get seeded values (or stay unset)
+    for n in discovered {
+        if r.chance(2, 3) {
+            let val = match r.below(5) {
+                0 => String::new(),
+                1 => "1".to_string(),
+                2 => "0".to_string(),
+                3 => format!("v{}", r.below(1000)),
+                _ => "true".to_string(),
+            };
+            v.push((n.clone(), val));
+        }
+    }
     if r.chance(1, 2) {
         v.push(("LANG".into(), r.pick(&["C", "en_US.UTF-8", "tr_TR.UTF-8", "ja_JP.eucJP"]).to_string()));
     }
@@ -206,14 +294,15 @@ fn junk_env(r: &mut Rng) -> Vec<(String, String)> {
     v
 }
 
-fn gen_env(r: &mut Rng) -> Env {
+fn gen_env(r: &mut Rng, discovered: &[String]) -> Env {
     Env {
         entropy_seed: if r.chance(1, 8) { 0 } else { r.next() },
         clock_base: if r.chance(1, 2) { Some(1_000_000_000 + r.next() % 1_000_000_000) } else { None },
         fake_pid: if r.chance(1, 2) { Some(2 + (r.next() % 60000) as u32) } else { None },
-        junk: junk_env(r),
+        junk: junk_env(r, discovered),
         aslr_off: true,
-        cwd: if r.chance(1, 2) { Some(r.pick(&["/", "/tmp", "/usr/lib"]).to_string()) } else { None },
+        // a sub-directory of the process's private directory
+        cwd: if r.chance(1, 2) { Some(r.pick(&["w", "deep/er/still", "x y"]).to_string()) } else { None },
     }
 }
 
@@ -339,13 +428,13 @@ pub fn gen_session(seed: u64, index: u64, c: &Corpus) -> Session {
     bounds.dedup();
     let mut segments = Vec::new();
     let same_env = r.chance(1, 2);
-    let env0 = gen_env(&mut r);
+    let env0 = gen_env(&mut r, &c.env_names);
     for win in bounds.windows(2) {
         let part = reqs[win[0]..win[1]].to_vec();
         if part.is_empty() {
             continue;
         }
-        let env = if same_env { env0.clone() } else { gen_env(&mut r) };
+        let env = if same_env { env0.clone() } else { gen_env(&mut r, &c.env_names) };
         let prealloc: Vec<usize> = (0..r.below(6)).map(|_| *r.pick(&[16usize, 48, 100, 1000, 4096, 70000])).collect();
         segments.push(Segment {
             env,
@@ -399,36 +488,59 @@ pub struct Stats {
     pub errors: Vec<String>,
     pub digest: u64,
     pub selfchecked: u64,
+    pub seam_getrandom: u64,
+    pub seam_clock: u64,
+    pub seam_getpid: u64,
+    pub seam_getenv: u64,
+    pub seam_names: std::collections::BTreeSet<String>,
 }
 
 fn key_hash(k: &Key) -> u64 {
     fnv(format!("{}\u{0}{}", k.derive, k.item).as_bytes())
 }
 
+/// Runs all segments of a session, in order, over one durable directory.
+pub fn run_session(ctx: &Ctx, segs: &[Segment]) -> Result<Vec<ChildOut>, String> {
+    let dur = Durable::new(ctx, "ses");
+    let mut outs = Vec::new();
+    for (si, seg) in segs.iter().enumerate() {
+        outs.push(run_child(ctx, &seg.env, &seg.sched, &dur).map_err(|e| format!("segment {si}: {e}"))?);
+    }
+    Ok(outs)
+}
+
 pub fn check_session(ctx: &Ctx, refs: &RefCache, s: &Session, st: &mut Stats, selfcheck: bool) {
     st.sessions += 1;
     st.process_restarts += s.segments.len().saturating_sub(1) as u64;
     let mut session_digest = fnv(&s.index.to_le_bytes());
-    for (si, seg) in s.segments.iter().enumerate() {
-        let (obs, raw) = match run_child(ctx, &seg.env, &seg.sched) {
-            Ok(x) => x,
-            Err(e) => {
-                st.errors.push(format!("session {} segment {}: {}", s.index, si, e));
-                return;
-            }
-        };
-        st.processes += 1;
-        if selfcheck {
-            // the simulator must be deterministic first: same plan, fresh process, same log
-            match run_child(ctx, &seg.env, &seg.sched) {
-                Ok((_, raw2)) => {
-                    st.selfchecked += 1;
-                    if raw2 != raw {
-                        st.nondeterministic.push(s.index);
-                    }
+    let outs = match run_session(ctx, &s.segments) {
+        Ok(o) => o,
+        Err(e) => {
+            st.errors.push(format!("session {}: {}", s.index, e));
+            return;
+        }
+    };
+    if selfcheck {
+        // the simulator must be deterministic first: same plan, fresh processes, fresh durable state, same logs
+        match run_session(ctx, &s.segments) {
+            Ok(outs2) => {
+                st.selfchecked += outs2.len() as u64;
+                if outs.iter().zip(outs2.iter()).any(|(a, b)| a.raw != b.raw) {
+                    st.nondeterministic.push(s.index);
                 }
-                Err(e) => st.errors.push(format!("session {} segment {} (rerun): {}", s.index, si, e)),
             }
+            Err(e) => st.errors.push(format!("session {} (rerun): {}", s.index, e)),
+        }
+    }
+    for (si, (seg, out)) in s.segments.iter().zip(outs.iter()).enumerate() {
+        let obs = &out.obs;
+        st.processes += 1;
+        st.seam_getrandom += out.seams.getrandom;
+        st.seam_clock += out.seams.clock;
+        st.seam_getpid += out.seams.getpid;
+        st.seam_getenv += out.seams.getenv;
+        for n in &out.seams.names {
+            st.seam_names.insert(n.clone());
         }
         if seg.sched.workers > 1 {
             st.multi_worker_sessions += 1;
@@ -452,7 +564,7 @@ pub fn check_session(ctx: &Ctx, refs: &RefCache, s: &Session, st: &mut Stats, se
         );
         st.layouts.insert(layout);
         let mut hist = fnv(&seg.env.entropy_seed.to_le_bytes());
-        for o in &obs {
+        for o in obs.iter() {
             st.requests += 1;
             let key = &seg.sched.keys[o.k];
             let kh = key_hash(key);
@@ -515,6 +627,10 @@ pub struct Replay {
     pub seed: u64,
     pub session: u64,
     pub what: String,
+    /// process segments run before, in order, over the same durable directory (restarts: only what
+    /// is on disk survives); empty unless the divergence needs state left on disk
+    #[serde(default)]
+    pub prefix_segments: Vec<Segment>,
     pub env: Env,
     pub sched: Schedule,
     /// index (in `sched.requests`) of the request whose observation diverges
@@ -527,10 +643,15 @@ pub struct Replay {
     pub original_requests: usize,
 }
 
-/// Does the last request of `sched` (the probe) diverge from the pristine reference?
-fn probe_diverges(ctx: &Ctx, refs: &RefCache, env: &Env, sched: &Schedule) -> Option<bool> {
-    let (obs, _) = run_child(ctx, env, sched).ok()?;
-    let last = obs.last()?;
+/// Does the last request of `sched` (the probe) diverge from the pristine reference, when run after
+/// `prefix` segments over one fresh durable directory?
+fn probe_diverges(ctx: &Ctx, refs: &RefCache, prefix: &[Segment], env: &Env, sched: &Schedule) -> Option<bool> {
+    let dur = Durable::new(ctx, "min");
+    for seg in prefix {
+        run_child(ctx, &seg.env, &seg.sched, &dur).ok()?;
+    }
+    let out = run_child(ctx, env, sched, &dur).ok()?;
+    let last = out.obs.last()?;
     let key = &sched.keys[last.k];
     let r = refs.get(ctx, key).ok()?;
     Some(r.class != last.class || r.digest != last.digest)
@@ -544,7 +665,14 @@ pub fn minimise(ctx: &Ctx, refs: &RefCache, d: &Divergence, s: &Session, seed: u
     sched.requests.truncate(d.seq + 1);
     let original = sched.requests.len();
     let mut steps = 0usize;
-    let fails = |sc: &Schedule| probe_diverges(ctx, refs, &env, sc) == Some(true);
+    // earlier process segments of the session matter only through what they left on disk
+    let mut prefix_segments: Vec<Segment> = s.segments[..d.segment].to_vec();
+    if !prefix_segments.is_empty() && probe_diverges(ctx, refs, &[], &env, &sched) == Some(true) {
+        prefix_segments.clear();
+        steps += 1;
+    }
+    let prefix_segments = prefix_segments;
+    let fails = |sc: &Schedule| probe_diverges(ctx, refs, &prefix_segments, &env, sc) == Some(true);
     if !fails(&sched) {
         // does not reproduce in isolation from later requests?! keep as is (reported by replay check)
     } else {
@@ -628,7 +756,7 @@ pub fn minimise(ctx: &Ctx, refs: &RefCache, d: &Divergence, s: &Session, seed: u
     // 4. simpler environment
     let mut env_min = env.clone();
     let mut try_env = |e: Env, env_min: &mut Env, steps: &mut usize| {
-        if e != *env_min && probe_diverges(ctx, refs, &e, &sched) == Some(true) {
+        if e != *env_min && probe_diverges(ctx, refs, &prefix_segments, &e, &sched) == Some(true) {
             *env_min = e;
             *steps += 1;
         }
@@ -636,6 +764,17 @@ pub fn minimise(ctx: &Ctx, refs: &RefCache, d: &Divergence, s: &Session, seed: u
     let mut e = env_min.clone();
     e.junk.clear();
     try_env(e, &mut env_min, &mut steps);
+    // otherwise drop the variables one at a time
+    let mut i = 0;
+    while i < env_min.junk.len() {
+        let mut e = env_min.clone();
+        e.junk.remove(i);
+        let before = env_min.junk.len();
+        try_env(e, &mut env_min, &mut steps);
+        if env_min.junk.len() == before {
+            i += 1;
+        }
+    }
     let mut e = env_min.clone();
     e.cwd = None;
     try_env(e, &mut env_min, &mut steps);
@@ -652,19 +791,29 @@ pub fn minimise(ctx: &Ctx, refs: &RefCache, d: &Divergence, s: &Session, seed: u
     // texts for the report
     let mut dump = sched.clone();
     dump.dump_text = true;
-    let (oc, ot) = match run_child(ctx, &env_min, &dump) {
-        Ok((obs, _)) => {
-            let l = obs.last().unwrap();
+    let dumped = (|| {
+        let dur = Durable::new(ctx, "dmp");
+        for seg in &prefix_segments {
+            run_child(ctx, &seg.env, &seg.sched, &dur).ok()?;
+        }
+        run_child(ctx, &env_min, &dump, &dur).ok()
+    })();
+    let (oc, ot) = match dumped {
+        Some(out) => {
+            let l = out.obs.last().unwrap();
             (l.class.clone(), l.text.clone())
         }
-        Err(_) => (d.observed.0.clone(), None),
+        None => (d.observed.0.clone(), None),
     };
     let pk = sched.keys[sched.requests.last().unwrap().k].clone();
     let (ec, et) = match reference(ctx, &pk, true) {
         Ok((r, t)) => (r.class, t),
         Err(_) => (d.expected.0.clone(), None),
     };
-    let what = describe(&env_min, &sched, &ec, &oc);
+    let mut what = describe(&env_min, &sched, &ec, &oc);
+    if !prefix_segments.is_empty() {
+        what.push_str(&format!("; needs the state left on disk by {} earlier process(es) of the session", prefix_segments.len()));
+    }
     Replay {
         property: "C19".into(),
         engine: "sessim".into(),
@@ -672,6 +821,7 @@ pub fn minimise(ctx: &Ctx, refs: &RefCache, d: &Divergence, s: &Session, seed: u
         seed,
         session: s.index,
         what,
+        prefix_segments: prefix_segments.clone(),
         env: env_min,
         probe: sched.requests.len() - 1,
         sched,
@@ -689,6 +839,8 @@ fn describe(env: &Env, sched: &Schedule, ec: &str, oc: &str) -> String {
     let n = sched.requests.len();
     let why = if n == 1 && env.entropy_seed != 0 && env.junk.is_empty() {
         "depends on the process's entropy (hash seeds)"
+    } else if n == 1 && !env.junk.is_empty() {
+        "depends on the process environment (environment variables / block size)"
     } else if n == 1 {
         "depends on the process environment"
     } else {
@@ -722,18 +874,26 @@ fn truncate(s: &str, n: usize) -> String {
 /// plan exactly as recorded (the plan's own size and the text dump move the heap, which address-
 /// dependent code can observe); a second run with text dump is informational only.
 pub fn replay(ctx: &Ctx, rp: &Replay) -> Result<(bool, Value), String> {
-    let (obs, _) = run_child(ctx, &rp.env, &rp.sched)?;
-    let o = obs.get(rp.probe).ok_or("probe index out of range")?;
+    let run = |sched: &Schedule| -> Result<ChildOut, String> {
+        let dur = Durable::new(ctx, "rpl");
+        for seg in &rp.prefix_segments {
+            run_child(ctx, &seg.env, &seg.sched, &dur)?;
+        }
+        run_child(ctx, &rp.env, sched, &dur)
+    };
+    let out = run(&rp.sched)?;
+    let o = out.obs.get(rp.probe).ok_or("probe index out of range")?;
     let key = &rp.sched.keys[o.k];
     let (r, rt) = reference(ctx, key, true)?;
     let diverges = r.class != o.class || r.digest != o.digest;
     let mut dump = rp.sched.clone();
     dump.dump_text = true;
-    let text = run_child(ctx, &rp.env, &dump).ok().and_then(|(obs, _)| obs.get(rp.probe).and_then(|o| o.text.clone()));
+    let text = run(&dump).ok().and_then(|out| out.obs.get(rp.probe).and_then(|o| o.text.clone()));
     Ok((
         diverges,
         json!({"key": key, "expected": {"class": r.class, "digest": r.digest, "text": rt},
-               "observed": {"class": o.class, "digest": o.digest, "text_of_a_second_run_with_dump": text}}),
+               "observed": {"class": o.class, "digest": o.digest, "text_of_a_second_run_with_dump": text},
+               "environment_seams_consulted": {"getrandom": out.seams.getrandom, "clock": out.seams.clock, "getpid": out.seams.getpid, "getenv": out.seams.names}}),
     ))
 }
 
@@ -783,6 +943,11 @@ pub fn run_batch(ctx: Arc<Ctx>, corpus: Arc<Corpus>, refs: Arc<RefCache>, seed: 
         total.clock_skewed += s.clock_skewed;
         total.pid_faked += s.pid_faked;
         total.selfchecked += s.selfchecked;
+        total.seam_getrandom += s.seam_getrandom;
+        total.seam_clock += s.seam_clock;
+        total.seam_getpid += s.seam_getpid;
+        total.seam_getenv += s.seam_getenv;
+        total.seam_names.extend(s.seam_names);
         total.entropy_seeds.extend(s.entropy_seeds);
         total.layouts.extend(s.layouts);
         for (k, v) in s.key_contexts {
